@@ -14,6 +14,7 @@ import time
 import traceback
 
 from . import wire
+from . import fingerprint
 
 VERIF = os.path.dirname(os.path.dirname(os.path.abspath(__file__)))
 LEAN = os.path.join(VERIF, "lean")
@@ -282,8 +283,24 @@ def check(pid, tier, seed, replay=None):
     if replay:
         return do_replay(pid, mod, replay)
 
+    # source fingerprints: a change in the anchored functions is not a violation, but makes the run look harder
+    diffs, palette = fingerprint.changed(pid)
+    obl["changed_functions"] = ["%s:%s (%s)" % d for d in diffs]
+    if diffs:
+        try:
+            from . import reqgen
+            reqgen.EXTRA_VALUES[:] = palette
+        except Exception:
+            pass
     # corpus first, then generated cases
     cases = load_corpus(pid) + list(mod.gen(tier, rng))
+    if diffs and not os.environ.get("VERIF_NO_ESCALATE"):
+        seen = {c.key() for c in cases}
+        for k in range(1, 4):
+            for c in mod.gen(tier, random.Random(seed * 104729 + k)):
+                if c.key() not in seen:
+                    seen.add(c.key())
+                    cases.append(c)
     impl, drv, lines = evaluate(mod, cases, procs)
     findings = load_findings(pid)
 
@@ -465,6 +482,8 @@ def write_evidence(pid, tier, seed, mod, obl, cases, impl, drv, t0, violations=0
             "oracle_failures": sum(1 for d in drv if d[1] == "FAIL"),
             "known_findings_hit": known or {},
             "search_cases": searched,
+            "changed_functions": obl.get("changed_functions", []),
+            "escalated": bool(obl.get("changed_functions")),
             "distribution": dict(sorted(dist.items())),
             "exhaustive": bool(getattr(mod, "EXHAUSTIVE", {}).get(tier, False)),
         },
